@@ -13,6 +13,7 @@
 import IocProofs.Lemmas.ValueTop
 import IocProofs.Lemmas.ValueDefault
 import IocProofs.Lemmas.ValueTwice
+import IocProofs.Lemmas.ValueBinder
 namespace Ioc.C17
 open Ioc Ioc.Tag Ioc.Value
 
@@ -80,6 +81,41 @@ theorem C17_repopulate_current (J : Json) (evalE : Bytes → Except Err Val) (va
     (hb : fresh.bound = some v) :
     runStagesOn J evalE validate cfg ty stageOrder ⟨isValue, tagStr, leftVal, args, leftBound⟩ = .ok fresh :=
   repopulate_current J evalE validate cfg ty isValue tagStr leftVal args leftBound r hf fresh v h0 hb
+
+/-! ### the configuration changes between two populations (the binder model `Ioc.Value.Binder`: what was handed to Set,
+    over the merged documents; a lookup is a function of the two layers as they are NOW)
+
+    These say what "the configured value" of a path is after Configure.Set — at the path, below it and above it; with
+    C17_prefix_exact / C17_value_eq_prefix_partial (which hold for EVERY configuration function, `Binder.get` of the
+    current binder included) a holder populated after the change binds the current values through prefix, placeholder
+    and shorthand alike. -/
+
+/-- Set, then a lookup of the same path — written in any letter case — answers with the value that was set (any value
+    but nil; the keys of a map value arrive in lower case), whatever was set or configured before. -/
+theorem C17_set_get (b : Binder) (path path' : Bytes) (v : Val) (hc : lowerAscii path' = lowerAscii path)
+    (hv : lowerKeys v ≠ .null) : (b.set path v).get path' = lowerKeys v :=
+  set_get b path path' v hc hv
+
+/-- Set BELOW, lookup ABOVE: after Set("a.q", v) the ancestor `a` answers with a map in which the rest of the path leads
+    to v — a subtree bound by prefix after the change shows the change (for every depth of `a` and `q`: both may contain
+    dots). -/
+theorem C17_set_seen_through_ancestor (b : Binder) (a q : Bytes) (v : Val) :
+    ∃ sub, (b.set (a ++ 46 :: q) v).get a = .map sub ∧ searchMap sub (splitDots (lowerAscii q)) = lowerKeys v :=
+  set_seen_through_ancestor b a q v
+
+/-- Set ABOVE, lookup BELOW: after Set("a", map) a path below `a` that the map gives a value answers with that value —
+    a placeholder or shorthand naming a key of a replaced section shows the new section. -/
+theorem C17_set_seen_below (b : Binder) (a q : Bytes) (vm : List (Bytes × Val)) (w : Val) (hw : w ≠ .null)
+    (h : searchMap (lowerKeysM vm) (splitDots (lowerAscii q)) = w) :
+    (b.set a (.map vm)).get (a ++ 46 :: q) = w :=
+  set_seen_below b a q vm w hw h
+
+/-- A holder populated LATER (a lazily created component, a component of a second application sharing the configuration)
+    is populated under the configuration as it is then: the stages run over fresh properties with the lookups of the
+    binder after all Set calls — nothing an earlier population looked up plays a part. -/
+theorem C17_later_population_current (J : Json) (evalE : Bytes → Except Err Val) (validate : FVal → List Bytes → Bool)
+    (b : Binder) (ops : List (Bytes × Val)) (late : List HProp) :
+    populateLater J evalE validate b ops late = populateAll J evalE validate (b.setAll ops).get stageOrder late := rfl
 
 /-! ### counterexamples: one per class of the known lossy value path (each is a corpus case of the `value`
     sub-harness, replayed on the real code on every run) -/
@@ -172,5 +208,22 @@ example : (createTwice goJson noExpr noValidate cfgFirst cfgSecond false holderG
     ((populateAll goJson noExpr noValidate cfgFirst stageOrder holderGVPX).1.map (·.st.tagVal)) =
       [[], ofString "a.example.org", ofString "a.example.org", ofString "k"] := by decide +kernel
 example : findEl cDollar (ofString "${k}") = some ([], ofString "k", []) := by decide
+
+-- a start binds the section `db` by prefix, Set("db.host") repoints it, a later holder binds the section, the key through a
+-- placeholder and through the shorthand: all three show the CURRENT host (and Set in another letter case is the same Set)
+def docDb : Binder := ⟨[], [(ofString "db", .map [(ofString "host", .str (ofString "primary")), (ofString "port", .int 5432)])]⟩
+def tyDbHost : FieldTy := .struct [(ofString "host", .string)]
+def lateDb : List HProp :=
+  [⟨tyDbHost, ⟨false, ofString "db", ofString "db", [], none⟩⟩, ⟨.string, ⟨true, ofString "${db.host}", ofString "${db.host}", [], none⟩⟩,
+   ⟨.string, ⟨true, ofString "${DB.Host}", ofString "${DB.Host}", [], none⟩⟩, ⟨.int, ⟨true, ofString "${db.port}", ofString "${db.port}", [], none⟩⟩]
+example : (populateLater goJson noExpr noValidate docDb [(ofString "db.host", .str (ofString "replica"))] lateDb).2 = none ∧
+    (populateLater goJson noExpr noValidate docDb [(ofString "db.host", .str (ofString "replica"))] lateDb).1.map (·.st.bound) =
+      [some (.struct [(ofString "host", .str (ofString "replica"))]), some (.str (ofString "replica")), some (.str (ofString "replica")), some (.int 5432)] ∧
+    (populateLater goJson noExpr noValidate docDb [(ofString "DB.HOST", .str (ofString "replica"))] lateDb).1.map (·.st.bound) =
+      (populateLater goJson noExpr noValidate docDb [(ofString "db.host", .str (ofString "replica"))] lateDb).1.map (·.st.bound) ∧
+    -- the section replaced by a map: the key below it shows the new section
+    ((docDb.set (ofString "db") (.map [(ofString "Host", .str (ofString "third"))])).get (ofString "db.host")) = .str (ofString "third") := by
+  decide +kernel
+example : lowerKeys (.map [(ofString "Host", .str (ofString "third"))]) ≠ .null := by decide
 
 end Ioc.C17
